@@ -2,6 +2,7 @@ import TabulaModel.Util
 import TabulaModel.Model.Xref
 import TabulaModel.Model.XrefBytes
 import TabulaModel.Model.XrefFile
+import TabulaModel.Model.XrefNestCache
 /-!
 Ops of C04:
 * `c04.run S=<start> X=<sections> O=<objects> P=<ops>` — the abstract model (Model/Xref.lean);
@@ -15,7 +16,10 @@ Ops of C04:
   bytes of the file: `xref=[…] res=[…]` or `open-err`.
 * `c04.osm <inflate> <dict> <data> <indices>` — `core.NewObjectStream` on a stream with that
   dictionary text and data, then `GetObjectByIndex` for every index in order on the one object:
-  `num:value` or `e` per call.
+  `num:value` or `e` per call (the state machine of c437385: `osRunK`, the header error kept).
+* `c04.nest <d> <top> <ops>` — the reader's caches on a chain file of `d` nested integers
+  (Model/XrefNestCache.lean): ops `a<i>` / `s<i>` / `t` = GetObject of `A i` / `S i` / `T`,
+  `c` = ClearCache; one of `1` (found), `0` (error), `-` (clear) per op.
 `inflate`: `_` or `<in>><out>;…` (zlib's answers, `!` = rejected).
 -/
 namespace Tabula.C04H
@@ -203,7 +207,7 @@ def handleBytes (op : String) (args : List String) : Option String :=
       some (match Pdf.coreParse d with
         | .ok (.dict kv, _) =>
           let dec := Reader.mkObjStm (mkExt infl) kv data
-          let res := XrefFile.osRun dec {} idxs
+          let res := XrefFile.osRunK true dec {} idxs
           ",".intercalate (res.map fun r => match r with
             | some (num, o) => s!"{num}:{showObj o}"
             | none => "e")
@@ -217,11 +221,27 @@ def handleBytes (op : String) (args : List String) : Option String :=
         | .error _ => "open-err"
         | .ok x =>
           let res := nums.map fun n =>
-            match XrefFile.getObjectB ext bs x (x.length + 2) [] n with
+            match XrefFile.getObjectB ext bs x (XrefFile.maxNestedLoads + 1) [] n with
             | some v => showPVal v
             | none => "e"
           s!"xref=[{dumpRaw x}] res=[{",".intercalate res}]")
     | _, _, _ => none
+  | "c04.nest", [d, top, ops] =>
+    let parseOp (s : String) : Option XrefNest.Op :=
+      match s.toList with
+      | ['c'] => some .clear
+      | ['t'] => some .t
+      | 'a' :: r => (String.ofList r).toNat?.map .a
+      | 's' :: r => (String.ofList r).toNat?.map .s
+      | _ => none
+    match d.toNat?, (ops.splitOn ",").mapM parseOp with
+    | some d, some ops =>
+      let res := XrefNest.run d (top == "1") {} ops
+      some (",".intercalate (res.map fun r => match r with
+        | some true => "1"
+        | some false => "0"
+        | none => "-"))
+    | _, _ => none
   | _, _ => none
 
 def handle (op : String) (args : List String) : String :=
